@@ -314,6 +314,52 @@ theorem reject_pure (st : Style) (cols lines : Nat) (s : List Char) (e : Err)
       | error e' => simp
       | ok r => simp [hc] at h
 
+/-- NO SIDE EFFECT ON REJECTION, over the entry point with the instance state explicit: when
+    `image.__format__(spec)` raises, the instance state (size setting — a dynamic `Size` stays that `Size` —
+    and frame position) is what it was, and nothing but the terminal-size read happened: the renderer was not
+    entered, no size was set. For every style, terminal size, size setting, resolution function and string. -/
+theorem rejected_no_side_effect (st : Style) (cols lines : Nat) (resolve : Nat → Nat × Nat)
+    (img : ImgState) (s : List Char) (e : Err)
+    (h : (formatEntry st cols lines resolve img s).2.2 = .error e) :
+    (formatEntry st cols lines resolve img s).1 = img ∧
+    ∀ ev ∈ (formatEntry st cols lines resolve img s).2.1, ev = EvE.termSize := by
+  unfold formatEntry at h ⊢
+  cases hf : formatRun st cols lines s with
+  | mk evs r =>
+    cases r with
+    | error e' => simp
+    | ok r' => simp [hf] at h
+
+/-- and an accepted specifier leaves the instance state unchanged too: a dynamic size is resolved for the
+    render only and the `Size` member is put back; a fixed size is rendered as is. -/
+theorem accepted_state_restored (st : Style) (cols lines : Nat) (resolve : Nat → Nat × Nat)
+    (img : ImgState) (s : List Char) (r : Result)
+    (h : (formatEntry st cols lines resolve img s).2.2 = .ok r) :
+    (formatEntry st cols lines resolve img s).1 = img ∧
+    (formatEntry st cols lines resolve img s).2.1 =
+      (match img.size with
+        | .dyn k => [.termSize, .enter, .setSize (resolve k).1 (resolve k).2,
+                     .render (resolve k).1 (resolve k).2, .restore k]
+        | .fixed c l => [.termSize, .enter, .render c l]) ∧
+    checkFormatSpec st cols lines s = .ok r := by
+  have hc := formatCall_eq st cols lines s
+  unfold formatCall at hc
+  unfold formatEntry at h ⊢
+  cases hf : formatRun st cols lines s with
+  | mk evs r0 =>
+    rw [hf] at hc
+    cases r0 with
+    | error e' => simp [hf] at h
+    | ok r' =>
+      simp only [hf] at h
+      simp only at hc
+      refine ⟨?_, ?_, ?_⟩
+      · obtain ⟨sz, fr⟩ := img
+        cases sz <;> rfl
+      · obtain ⟨sz, fr⟩ := img
+        cases sz <;> rfl
+      · rw [← hc]; exact h
+
 /-- and a successful `format` enters the renderer exactly once, after the terminal size was read -/
 theorem accept_renders_once (st : Style) (cols lines : Nat) (s : List Char) (r : Result)
     (h : (formatRun st cols lines s).2 = .ok r) :
@@ -383,6 +429,12 @@ example : ¬ Grammar .kitty "1+x".toList ∧ ¬ Grammar .kitty "x+L".toList ∧ 
   refine ⟨?_, ?_, ?_⟩ <;> (rw [← accepts_iff_grammar]; decide)
 example : Undetermined "1+L\n".toList :=
   ⟨⟨⟨none, ['1'], none, none, none⟩, rfl, by decide, by decide⟩, ['L', '\n'], by decide, by decide, by decide⟩
+-- rejected_no_side_effect / accepted_state_restored: a dynamic-size instance, rejected and accepted
+example : formatEntry .kitty 80 30 (fun _ => (56, 28)) ⟨.dyn 0, 1⟩ "1.".toList =
+    (⟨.dyn 0, 1⟩, [], .error .invalidSpec) := by decide
+example : (formatEntry .kitty 80 30 (fun _ => (56, 28)) ⟨.dyn 0, 1⟩ "+z1L".toList).2.2 = .error .styleError := by decide
+example : (formatEntry .block 80 30 (fun _ => (56, 28)) ⟨.dyn 3, 0⟩ "<.^".toList).2.1 =
+    [.termSize, .enter, .setSize 56 28, .render 56 28, .restore 3] := by decide
 -- format_eq_draw_params: a sentence with width ≤ terminal width
 example : (⟨some '<', ['7'], none, some .termbg, none⟩ : Sentence).wf .block = true ∧
     natOfDigits ['7'] ≤ 80 := by decide
